@@ -217,7 +217,19 @@ func FromRoot(root *ggql.Root, directiveNames []string) (*Schema, error) {
 				if n := name("subscriptionType"); n != "" && n != "Subscription" {
 					blk.Subscription = n
 				}
-				if blk.Query != "" || blk.Mutation != "" || blk.Subscription != "" {
+				// directive uses on the undeclared schema have no accessor at all: they are read from the schema block the
+				// root prints for it (loaded into a scratch root, where the block is a declared schema with accessors)
+				if txt := root.SDL(false, false); strings.Contains(txt, "\nschema ") {
+					scratch := ggql.NewRoot(nil)
+					if scratch.ParseString(txt) == nil {
+						for _, t := range scratch.Types() {
+							if st, ok := t.(*ggql.Schema); ok {
+								blk.Dirs = fromDirs(st.Directives())
+							}
+						}
+					}
+				}
+				if blk.Query != "" || blk.Mutation != "" || blk.Subscription != "" || len(blk.Dirs) > 0 {
 					s.Blocks = append(s.Blocks, blk)
 				}
 			}
